@@ -38,6 +38,7 @@ def main(argv=None):
     ap.add_argument("prop")
     ap.add_argument("--tier", default=os.environ.get("VERIF_TIER", "quick"), choices=["quick", "thorough"])
     ap.add_argument("--replay")
+    ap.add_argument("--selftest", action="store_true", help="also corrupt logged fields and require TLC to reject them (always on in the thorough tier)")
     ap.add_argument("--repo", default=os.environ.get("VERIF_REPO", "/repo"))
     a = ap.parse_args(argv)
     seed = int(os.environ.get("VERIF_SEED", "0") or 0)
@@ -45,6 +46,8 @@ def main(argv=None):
     if a.prop not in reg:
         print("unknown property " + a.prop, file=sys.stderr)
         return 2
+    if a.selftest:
+        os.environ["VERIF_SELFTEST"] = "1"
     ctx = core.Ctx(a.prop, a.tier, seed, a.repo)
     try:
         bound = env.bind(a.repo)
